@@ -122,4 +122,102 @@ def TxnCoherent (s : CSys) : Prop :=
   ∀ id c t, s.ctxns.lookup id = some c → s.inner.txns.lookup id = some t → t.finished = false →
     ∀ k e, c.lru.lookup k = some e → e = sget t.root k
 
+/-! ### `cacheTransaction.Commit` in micro-steps, in CODE ORDER
+
+`Commit` is (1) the underlying transaction's `Commit` (atomic below: inmem holds the parent lock), then, only if
+that succeeded, (2) one `parent.lru.Remove(key)` per modified key (each under that key's stripe lock). Between any
+two micro-steps a concurrent plain reader may run a whole `cache.Get(k)` on the PARENT cache (hit, or miss →
+backend read → LRU fill, negative results included; `cache.Get` holds the key's stripe lock, so it is atomic
+with respect to the eviction of that key). -/
+
+inductive Phase where
+  | before                                  -- underlying commit not yet executed
+  | invalidating (pending : List Key)       -- underlying commit done and successful; keys still to evict
+  | done
+  deriving DecidableEq, Repr
+
+structure Win where
+  sys : CSys
+  id : Nat
+  phase : Phase
+  res : Res          -- what `Commit` returns (meaningful once `phase = done`)
+  deriving DecidableEq, Repr
+
+inductive WStep where
+  | reader (k : Key)      -- a concurrent plain `cache.Get(k)`
+  | tick                  -- the committing goroutine performs its next micro-step
+  deriving DecidableEq, Repr
+
+/-- the commit window opens only for a transaction the cache layer and the layer below both know -/
+def Win.start (s : CSys) (id : Nat) : Option Win :=
+  match s.ctxns.lookup id, s.inner.txns.lookup id with
+  | some _, some _ => some { sys := s, id := id, phase := .before, res := .ok }
+  | _, _ => none
+
+def Win.reader (w : Win) (k : Key) : Win × Res :=
+  match w.sys.step (.plain (.get k)) with
+  | some (s', r) => ({ w with sys := s' }, r)
+  | none => (w, .val none)     -- unreachable: a plain step is always defined (`plain_get_defined`)
+
+def Win.tick (w : Win) : Win :=
+  match w.phase with
+  | .before =>
+    match w.sys.ctxns.lookup w.id, w.sys.inner.step (.commit w.id) with
+    | some c, some (i', .ok) => { w with sys := { w.sys with inner := i' }, phase := .invalidating c.modified, res := .ok }
+    | some _, some (i', r) => { w with sys := { w.sys with inner := i' }, phase := .done, res := r }
+    | _, _ => w
+  | .invalidating [] => { w with phase := .done }
+  | .invalidating (k :: rest) => { w with sys := { w.sys with lru := lruRemove w.sys.lru k }, phase := .invalidating rest }
+  | .done => w
+
+def Win.step (w : Win) : WStep → Win
+  | .reader k => (w.reader k).1
+  | .tick => w.tick
+
+def Win.run (w : Win) : List WStep → Win
+  | [] => w
+  | st :: r => (w.step st).run r
+
+/-- all remaining evictions, then return -/
+def Win.drain (w : Win) : Win :=
+  match w.phase with
+  | .invalidating pending => { w with sys := { w.sys with lru := pending.foldl lruRemove w.sys.lru }, phase := .done }
+  | _ => w
+
+/-- the committing goroutine runs to the end of `Commit` without further interference -/
+def Win.finish (w : Win) : Win :=
+  match w.phase with
+  | .before => w.tick.drain
+  | _ => w.drain
+
+/-- schedules at micro-step granularity: ordinary (atomic) events, or a commit executed in micro-steps with any
+    interleaving of concurrent readers (the remaining micro-steps are appended) -/
+inductive MEvent where
+  | ev (e : Event)
+  | window (id : Nat) (sched : List WStep)
+  deriving Repr
+
+def CSys.runM : CSys → List MEvent → CSys
+  | s, [] => s
+  | s, .ev e :: r =>
+    match s.step e with
+    | none => s.runM r
+    | some (s', _) => s'.runM r
+  | s, .window id sched :: r =>
+    match Win.start s id with
+    | none => s.runM r
+    | some w => ((w.run sched).finish.sys).runM r
+
+/-- MODEL VARIANT, not the code: the two halves of `Commit` in the REVERSED order — evict the modified keys from
+    the parent cache first, let concurrent readers run, then commit below -/
+def commitReversed (s : CSys) (id : Nat) (readers : List Key) : Option CSys :=
+  match s.ctxns.lookup id with
+  | none => none
+  | some c =>
+    let s1 : CSys := { s with lru := c.modified.foldl lruRemove s.lru }
+    let s2 := readers.foldl (fun st k => match st.step (.plain (.get k)) with | some (s', _) => s' | none => st) s1
+    match s2.inner.step (.commit id) with
+    | none => none
+    | some (i', _) => some { s2 with inner := i' }
+
 end Obao.CacheTxn
